@@ -170,6 +170,26 @@ CHECKS['C10'] = ('exploration',
   'MAX_CHUNK_SIZE module global; leaf class (jax -> numpy) is not compared; non-native-endian '
   'dtypes are outside the alphabet.', '§4 C10')
 
+CHECKS['C09'] = ('model_checking',
+  'bounded-exhaustive enumeration of Linen module trees with a relational key oracle + '
+  'exhaustive exploration of operation histories on a real nnx.Rngs object',
+  'Linen: every module tree over a name set that collides without the separator (ab/c vs a/bc), '
+  'each node drawing keys from up to two streams and owning key-observing parameters, is '
+  'initialised on the real implementation; every key handed to user code is observed and the '
+  'oracle is purely relational: two runs agree; every permutation of sibling creation order, an '
+  'extra unrelated sibling (first / last), an extra variable and an extra stream leave every other '
+  'key unchanged; no key is handed out twice (with flax_fix_rng_separator for any two paths, '
+  'without it for all pairs except the concatenation collisions the flag exists for); changing '
+  'one stream seed changes exactly that stream; a missing stream yields the params stream\'s '
+  'keys and raises without params. NNX: all histories up to the tier depth over {draw default / '
+  's1 / s2 / missing, split_rngs + vmapped draws + restore, with-context, only= filter, reseed, '
+  'split/merge} run on a real Rngs; invariants in every state: draw == fold_in(key, count) as '
+  'documented, no key returned twice (a reseeded stream restarts its own sequence), the key '
+  'consumed by a split is never replayed after restore, fallback advances the default stream, '
+  'replay determinism.',
+  'Derivations are never hard-coded for Linen; distinctness is on key data; lifted-transform '
+  'rng clauses are decided in C05 / C06.', '§4 C09')
+
 NOT_APPLICABLE = {}
 
 
